@@ -231,6 +231,11 @@ func (in *Interp) symStrSlice(b *SymStr, x *ssa.Slice, fr *frame) Value {
 
 // taggedString returns the symbolic string attached to a byte buffer, if any.
 func (in *Interp) taggedString(s Slice) Value {
+	if s.Arr != nil && in.bufTags != nil {
+		if v, ok := in.bufTags[s.Arr]; ok && s.Off == 0 {
+			return v
+		}
+	}
 	if s.Arr != nil {
 		if ss, ok := s.Arr.V.(*SymStr); ok && s.Len < 0 {
 			return ss
